@@ -7,6 +7,7 @@ EXTENDS Integers, Sequences, FiniteSets
 CONSTANTS N2, C2,     \* numbers / characters of the two-pair TTL texts
           N3, C3,     \* ... of the three-pair TTL texts
           RTok, RLen, \* tokens and maximal token count of range texts
+          RMidTok,    \* tokens of the range texts of up to six tokens
           RLongTok,   \* tokens of the range texts of up to seven tokens
           SBits       \* serial widths enumerated completely
 
@@ -39,13 +40,14 @@ TtlEdge == {Dg(a) \o <<119>> \o Dg(<<b>>) \o <<100>> \o c \o <<115>> :
               a \in {<<7, 1, 0, 0>>, <<7, 1, 0, 1>>}, b \in 0..4,
               c \in {Dg(<<2, 8, 2, 4, 9, 5>>), Dg(<<2, 8, 2, 4, 9, 6>>), Dg(<<2, 3, 2, 9, 5>>), Dg(<<2, 3, 2, 9, 6>>),
                      Dg(<<8, 8, 7, 2, 9, 5>>), Dg(<<8, 8, 7, 2, 9, 6>>)}}
-(* the TTL universe is the union of these four parts, the range universe of InRangeShort and
-   InRangeLong; they are enumerated part by part (a \cup of two large sets is slow in TLC) *)
+(* the TTL universe is the union of these four parts, the range universe of InRangeShort,
+   InRangeMid and InRangeLong; they are enumerated part by part (a \cup of two large sets is slow in TLC) *)
 
 RECURSIVE Exact(_, _)
 Exact(S, k) == IF k = 0 THEN {<<>>} ELSE {p \o s : p \in Exact(S, k - 1), s \in S}      \* exactly k tokens
 (* long texts over few tokens: several dashes / slashes ("1-2/1/2") need seven tokens *)
 InRangeShort(x) == \E k \in 0..RLen : x \in Exact(RTok, k)
+InRangeMid(x) == \E k \in 0..6 : x \in Exact(RMidTok, k)
 InRangeLong(x) == \E k \in 0..7 : x \in Exact(RLongTok, k)
 RNumsAll == {Dg(<<0>>), Dg(<<1>>), Dg(<<2>>), Dg(<<5>>), Dg(<<1, 0>>), Dg(<<0, 0, 7>>),
              Dg(<<2, 1, 4, 7, 4, 8, 3, 6, 4, 7>>), Dg(<<2, 1, 4, 7, 4, 8, 3, 6, 4, 8>>),
@@ -73,13 +75,15 @@ QC3 == {119, 100, 115, 77, 121}
 QRTok == {Dg(<<0>>), Dg(<<1>>), Dg(<<2>>), Dg(<<1, 0>>), Dg(<<2, 1, 4, 7, 4, 8, 3, 6, 4, 8>>)} \cup RSeps \cup {<<120>>}
 TN2 == AllNums
 TC2 == AllChars
-TN3 == SmallNums \cup {Dg(<<0, 0, 7>>), Dg(<<7, 1, 0, 1>>)}
+TN3 == SmallNums \cup {Dg(<<0, 0, 7>>), Dg(<<7, 1, 0, 1>>), Dg(<<4, 2, 9, 4, 9, 6, 7, 2, 9, 5>>)}
 TC3 == LowerUnits \cup {87, 121, 1633}
 TRTok == (RNumsAll \ {Dg(<<5>>)}) \cup RSeps \cup {<<120>>, <<1633>>}
 (* the model-checking run of the thorough tier steps through a smaller universe than the one replayed on the code *)
 MN2 == QN2 \cup EdgeNums
 MC2 == LowerUnits \cup UpperUnits \cup {121, 45, 178, 1633}
 MRTok == QRTok \cup {Dg(<<0, 0, 7>>), Dg(<<2, 1, 4, 7, 4, 8, 3, 6, 4, 7>>), <<1633>>}
+QRMid == {}
+TRMid == {Dg(<<0>>), Dg(<<1>>), Dg(<<2>>), Dg(<<1, 0>>)} \cup RSeps \cup {<<120>>}
 QRLong == {<<49>>, <<50>>} \cup RSeps
 TRLong == {<<48>>, <<49>>, <<50>>} \cup RSeps
 AllBits == 2..8
